@@ -6,5 +6,6 @@ namespace Driver
 def registry : List Suite := [
   Suites.Blocks.suite,
   Suites.Loop.mkSuite "loop-dl",
+  Suites.Loop.mkSuite "lifecycle",
 ]
 end Driver
